@@ -1273,6 +1273,25 @@ class Evaluator:
                     c_ = sp.Symbol(f"timeprecision_is_{v_.expr}")
                     return CondV(c_ if isinstance(op, ast.Eq) else sp.Not(c_))
             eq = self.equal_vals(a, b)
+            if eq is None and isinstance(a, TupleV) and isinstance(b, TupleV) and len(a.items) == len(b.items) \
+                    and all(isinstance(x_, Num) and not x_.shape for x_ in list(a.items) + list(b.items)):
+                # tuples of scalars (shapes): equal iff every pair is; an undecided pair (3 == N) makes the verdict a condition
+                conds = []
+                for x_, y_ in zip(a.items, b.items):
+                    c_ = self.compare(ast.Eq(), x_, y_, node, fr)
+                    if isinstance(c_, BoolV):
+                        if not c_.b:
+                            return BoolV(isinstance(op, ast.NotEq))
+                    elif isinstance(c_, CondV):
+                        conds.append(c_.expr)
+                    else:
+                        conds = None
+                        break
+                if conds is not None:
+                    if not conds:
+                        return BoolV(isinstance(op, ast.Eq))
+                    e_ = sp.And(*conds)
+                    return CondV(e_ if isinstance(op, ast.Eq) else sp.Not(e_))
             if eq is None:
                 self.unsupported(f"== between {a!r} and {b!r}", node, fr)
             return BoolV(eq if isinstance(op, ast.Eq) else not eq)
